@@ -670,3 +670,29 @@ def gated_family(ctx, prefixes, quick=(4, 14, 9), thorough=(None, 60, 12)):
         raise Inconclusive("the verif hook recorded nothing during the gated replays")
     chan_trace(ctx, lines, prefixes, "gated")
     return len(cases)
+
+
+# ---------------------------------------------------------------------------------------------------------
+# spec-level obligations discharged by the proof system (TLAPS): facts about FSM.tla for ALL records / events / arguments.
+# They are about the SPECIFICATION only (independent of /repo), so their outcome is recorded in the evidence and never
+# changes a check's exit code; a refuted variant of FSM.tla (Open moving a cleaning-up channel back to Requested) must fail.
+# ---------------------------------------------------------------------------------------------------------
+def tlaps_fsm(ctx):
+    proved, failed, tail = vlib.run_tlapm(ctx.scratch, "FSMProofs")
+    rec = {"module": "FSMProofs", "proved": proved, "failed": failed}
+    if failed != 0:
+        proved, failed, tail = vlib.run_tlapm(ctx.scratch, "FSMProofs", stretch=6)       # once more with longer prover timeouts (machine under load)
+        rec.update({"proved": proved, "failed": failed, "retried": True})
+    def mut(d):
+        p = os.path.join(d, "FSM.tla")
+        t = open(p).read()
+        t2 = t.replace('CASE e = "Open"   -> IF s \\in Cleanup THEN "REC" ELSE "Requested"', 'CASE e = "Open"   -> "Requested"')
+        assert t2 != t
+        open(p, "w").write(t2)
+    np, nf, _ = vlib.run_tlapm(ctx.scratch, "FSMProofs", mutate=mut, stretch=1)
+    rec["refuted_variant_fails"] = nf > 0
+    if failed != 0:
+        rec["note"] = "not all obligations were established in this run: " + tail[-300:]
+    ctx.extra["tlaps"] = rec
+    ctx.stages.append({"tlapm": "FSMProofs", "proved": rec["proved"], "failed": rec["failed"], "refuted_variant_fails": rec["refuted_variant_fails"]})
+    return rec
